@@ -7,18 +7,21 @@ import (
 	"fmt"
 	"math"
 	"math/big"
+	"sync/atomic"
 	"testing"
 	"time"
 
 	"vfkit"
 )
 
+var vfC19Slow int32
+
 type vfBackoffCase struct {
-	Base     int   `json:"base"`
-	Factor   int   `json:"factor"`
-	Cap      int   `json:"cap"`
-	NoJitter bool  `json:"nojitter"`
-	Attempts []int `json:"attempts"`
+	Base     int    `json:"base"`
+	Factor   int    `json:"factor"`
+	Cap      int    `json:"cap"`
+	NoJitter bool   `json:"nojitter"`
+	Attempts []int  `json:"attempts"`
 	Mode     string `json:"mode"` // "query" (durationForAttempt) or "sequence" (duration() after reset)
 }
 
@@ -92,7 +95,16 @@ func vfBackoffRun(run *vfkit.Run, cs vfBackoffCase) {
 		var prev time.Duration = -1
 		prevN := -1
 		for _, n := range cs.Attempts {
+			if n > 100000 && atomic.LoadInt32(&vfC19Slow) != 0 {
+				run.Inconclusive("huge-attempt-skipped-after-slow-query")
+				continue
+			}
+			t0 := time.Now()
 			d := b.durationForAttempt(n)
+			if time.Since(t0) > 2*time.Second {
+				// not a verdict (C19 says nothing about time); only stops the run from drowning in slow queries
+				atomic.StoreInt32(&vfC19Slow, 1)
+			}
 			if !check(n, d, "query") {
 				return
 			}
